@@ -444,7 +444,9 @@ theorem cntF_runFrame (p : Prog) (hh : Hist) {s : St} {f : Frame} (h : CntF s f)
     · exact cnt_gen h (by lt) rfl rfl (fs := []) rfl lights_nil
     · split
       · rename_i e ex work _
-        exact cnt_gen h (by lt) (by simp) (by simp [St.push]) (fs := [.despawnWork work]) (by simp [St.push]) (by lts)
+        split
+        · exact cnt_gen h (by lt) (by simp) (by simp [St.push]) (fs := [.despawnWork work]) (by simp [St.push]) (by lts)
+        · exact cnt_gen h (by lt) rfl rfl (fs := [.flush, .despawnWork _]) rfl (by lts)
       · split
         · exact cnt_gen h (by lt) rfl rfl (fs := [.despawnWork _]) rfl (by lts)
         · exact cnt_gen h (by lt) rfl rfl (fs := [.despawnWork _]) rfl (by lts)
@@ -673,7 +675,9 @@ theorem good_runFrame (p : Prog) (hh : Hist) (s : St) (f : Frame) (hg : ¬ badCa
     split
     · exact good_same rfl
     · split
-      · exact good_same (by simp)
+      · split
+        · exact good_same (by simp)
+        · exact good_same rfl
       · split <;> exact good_same rfl
   | poll => exact good_same (by simp only [runFrame, doPoll, ct_push]; exact ct_of_trace (by simp))
 
